@@ -62,12 +62,19 @@ class Lock:
 
 
 def coq_makefile():
+    """(re)generate Makefile.coq; the .v files of theories/ proofs/ props/ are passed on the command line, so rerun
+    whenever the set of .v files changed"""
     mk = os.path.join(COQ, "Makefile.coq")
-    proj = os.path.join(COQ, "_CoqProject")
-    if (not os.path.exists(mk)) or os.path.getmtime(mk) < os.path.getmtime(proj):
-        rc, out = sh(["coq_makefile", "-f", "_CoqProject", "-o", "Makefile.coq"], cwd=COQ)
+    stamp = os.path.join(COQ, ".vfiles.stamp")
+    files = sorted(os.path.join(d, f) for d in ("theories", "proofs", "props")
+                   for f in os.listdir(os.path.join(COQ, d)) if f.endswith(".v"))
+    cur = "\n".join(files)
+    old = open(stamp).read() if os.path.exists(stamp) else None
+    if (not os.path.exists(mk)) or old != cur:
+        rc, out = sh(["coq_makefile", "-f", "_CoqProject", "-o", "Makefile.coq"] + files, cwd=COQ)
         if rc != 0:
             raise RuntimeError("coq_makefile failed: " + out)
+        open(stamp, "w").write(cur)
 
 
 def coq_make(targets, timeout=3000):
